@@ -843,7 +843,7 @@ func (x *Exec) evalCall(e *CE, env *Env) TV {
 		return TV{x.seqOf(env.st, a.V, a.T), a.T}
 	case "typeis": // dynamic type of an interface value
 		a := arg(0).V.(IfaceV)
-		t := x.w.resolveType(ceName(e.Args[1]), env.pkg)
+		t := x.w.resolveType(typeTextOf(e.Args[1]), env.pkg)
 		return TV{Sc{c.Eq(a.Tag, x.typeID(t))}, boolT}
 	case "unbox":
 		a := arg(0).V.(IfaceV)
